@@ -64,8 +64,109 @@ static bool set_scan_flag(const char *arg, dir_tree_cfg_t *cfg)
 	return false;
 }
 
+typedef struct {
+	sqfs_dir_iterator_t base;
+	sqfs_dir_iterator_t *src;
+	fstree_t *fs;
+} parent_filter_t;
+
+static void pf_destroy(sqfs_object_t *obj)
+{
+	parent_filter_t *pf = (parent_filter_t *)obj;
+	sqfs_drop(pf->src);
+	free(pf);
+}
+
+static int pf_next(sqfs_dir_iterator_t *base, sqfs_dir_entry_t **out)
+{
+	parent_filter_t *pf = (parent_filter_t *)base;
+
+	for (;;) {
+		int ret = pf->src->next(pf->src, out);
+		if (ret != 0)
+			return ret;
+
+		if (fstree_get_node_by_path(pf->fs, pf->fs->root, (*out)->name,
+					    false, true) != NULL)
+			return 0;
+
+		if (S_ISDIR((*out)->mode))
+			pf->src->ignore_subdir(pf->src);
+		free(*out);
+		*out = NULL;
+	}
+}
+
+static int pf_read_link(sqfs_dir_iterator_t *base, char **out)
+{
+	parent_filter_t *pf = (parent_filter_t *)base;
+	return pf->src->read_link(pf->src, out);
+}
+
+static int pf_open_subdir(sqfs_dir_iterator_t *base, sqfs_dir_iterator_t **out)
+{
+	parent_filter_t *pf = (parent_filter_t *)base;
+	return pf->src->open_subdir(pf->src, out);
+}
+
+static void pf_ignore_subdir(sqfs_dir_iterator_t *base)
+{
+	parent_filter_t *pf = (parent_filter_t *)base;
+	pf->src->ignore_subdir(pf->src);
+}
+
+static int pf_open_file_ro(sqfs_dir_iterator_t *base, sqfs_istream_t **out)
+{
+	parent_filter_t *pf = (parent_filter_t *)base;
+	return pf->src->open_file_ro(pf->src, out);
+}
+
+static int pf_read_xattr(sqfs_dir_iterator_t *base, sqfs_xattr_t **out)
+{
+	parent_filter_t *pf = (parent_filter_t *)base;
+	return pf->src->read_xattr(pf->src, out);
+}
+
+static int scan_directory_real(fstree_t *fs, sqfs_dir_iterator_t *dir,
+			       size_t prefix_len, const char *file_prefix);
+
 int scan_directory(fstree_t *fs, sqfs_dir_iterator_t *dir,
-		   size_t prefix_len, const char *file_prefix)
+		   size_t prefix_len, const char *file_prefix,
+		   bool detect_hardlinks)
+{
+	parent_filter_t *pf = calloc(1, sizeof(*pf));
+	sqfs_dir_iterator_t *it, *hl;
+	int ret;
+
+	if (pf == NULL)
+		return -1;
+
+	sqfs_object_init(pf, pf_destroy, NULL);
+	pf->src = sqfs_grab(dir);
+	pf->fs = fs;
+	pf->base.next = pf_next;
+	pf->base.read_link = pf_read_link;
+	pf->base.open_subdir = pf_open_subdir;
+	pf->base.ignore_subdir = pf_ignore_subdir;
+	pf->base.open_file_ro = pf_open_file_ro;
+	pf->base.read_xattr = pf_read_xattr;
+	it = (sqfs_dir_iterator_t *)pf;
+
+	if (detect_hardlinks) {
+		ret = sqfs_hard_link_filter_create(&hl, it);
+		sqfs_drop(it);
+		if (ret)
+			return -1;
+		it = hl;
+	}
+
+	ret = scan_directory_real(fs, it, prefix_len, file_prefix);
+	sqfs_drop(it);
+	return ret;
+}
+
+static int scan_directory_real(fstree_t *fs, sqfs_dir_iterator_t *dir,
+			       size_t prefix_len, const char *file_prefix)
 {
 	for (;;) {
 		sqfs_dir_entry_t *ent = NULL;
@@ -95,27 +196,6 @@ int scan_directory(fstree_t *fs, sqfs_dir_iterator_t *dir,
 				sqfs_perror("readlink", ent->name, ret);
 				free(ent);
 				return -1;
-			}
-
-			/* a hard link target is relative to the scanned
-			   directory, move it below the prefix as well */
-			if ((ent->flags & SQFS_DIR_ENTRY_FLAG_HARD_LINK) &&
-			    prefix_len > 0) {
-				size_t tlen = strlen(extra) + 1;
-				char *full = malloc(prefix_len + 1 + tlen);
-
-				if (full == NULL) {
-					free(extra);
-					free(ent);
-					fputs("out-of-memory\n", stderr);
-					return -1;
-				}
-
-				memcpy(full, ent->name, prefix_len);
-				full[prefix_len] = '/';
-				memcpy(full + prefix_len + 1, extra, tlen);
-				free(extra);
-				extra = full;
 			}
 		} else if (S_ISREG(ent->mode) &&
 			   (prefix_len > 0 || file_prefix != NULL)) {
@@ -266,7 +346,8 @@ int glob_files(fstree_t *fs, const char *filename, size_t line_num,
 	if (dir == NULL)
 		goto fail;
 
-	ret = scan_directory(fs, dir, strlen(cfg.prefix), file_prefix);
+	ret = scan_directory(fs, dir, strlen(cfg.prefix), file_prefix,
+			     !(cfg.flags & DIR_SCAN_NO_HARDLINKS));
 	sqfs_drop(dir);
 
 	free(prefix);
